@@ -162,8 +162,9 @@ Section S.
     destruct (has_dyn MAncFailed (tid rt) dyn); [reflexivity|].
     destruct (has_dyn MWould (tid rt) dyn); [reflexivity|].
     destruct (m_persist rt && all_exist Ec w rt && any_changed Ec w rt); [reflexivity|].
-    rewrite orb_false_r, andb_true_r.
-    destruct (if force c then inr true else check_loop w rt (neighbours Ec rt) _) as [x|[|]]; try reflexivity.
+    rewrite andb_true_r.
+    destruct (if negb (preds_exist Ec w rt) then inl true
+              else if force c then inr true else check_loop w rt (neighbours Ec rt) _) as [x|[|]]; try reflexivity.
     destruct (dry_run c); [reflexivity|].
     destruct (run_body body w rt f) as [w1 raised]. destruct raised; [reflexivity|].
     rewrite (edges_record_consumer matches E w w1 t Hp).
